@@ -165,6 +165,7 @@ class Sim:
         self._pct_points = None
         self._burst_left = 0
         self.op_seq = 0  # global event sequence for history stamps
+        self.inline = False
 
     # ------------------------------------------------------------------ rng
     def rng(self, name) -> random.Random:
@@ -326,6 +327,9 @@ class Sim:
     def _handoff(self, me):
         """Decide who runs next; called by the thread holding the baton."""
         while True:
+            if self.aborting and self.inline:
+                # single-actor execution on the caller's thread: unwind now
+                raise SimAbort()
             if self.aborting:
                 self.current = None
                 self.main_sem.release()
@@ -436,6 +440,7 @@ class Sim:
         a.thread = threading.current_thread()
         self.actors.append(a)
         self.current = a
+        self.inline = True
         try:
             a.result = fn(a)
         except SimAbort:
@@ -445,4 +450,5 @@ class Sim:
         finally:
             a.state = "done"
             self.current = None
+            self.inline = False
         return a
